@@ -137,7 +137,7 @@ class AMF:
         ies=[ie_named(t,1,0,OS(b'amf')),
              ie_named(t,96,0,{'List':[{'GUAMI':guami}]}),
              ie_named(t,86,1,255),
-             ie_named(t,80,0,{'List':([{'PLMNIdentity':OS(bytes([0x99,0xf9,0x99])),'SliceSupportList':{'List':[{'SNSSAI':snssai}]}}] if s.R.randrange(2) else [])+
+             ie_named(t,80,0,{'List':([{'PLMNIdentity':OS(bytes([0x99,0xf9,0x99])),'SliceSupportList':{'List':[{'SNSSAI':snssai}]}}] if s.cfg.get('other_plmn_first', (s.cfg.get('gnb_bitlength',24)+len(s.cfg.get('gnb_name','')))%2==1) else [])+
                                      [{'PLMNIdentity':OS(exp),'SliceSupportList':{'List':[{'SNSSAI':snssai}]}}]})]
         # (an AMF may serve several PLMNs: the gNB's one need not come first in the PLMN Support List)
         return [mk_pdu(2,21,0,None,ies)]
